@@ -520,6 +520,12 @@ class Sym:
                 leaf.effects.append(('yield', s.T(st.value.value, leaf) if st.value.value is not None else ('c', None), None, st, len(leaf.conds)))
                 return [leaf]
             s.note_calls(st.value, leaf)
+            v = st.value
+            # local list literal built by append(): keep its elements (used for small tuples of parameters)
+            if isinstance(v, ast.Call) and isinstance(v.func, ast.Attribute) and v.func.attr == 'append' and isinstance(v.func.value, ast.Name) \
+                    and len(v.args) == 1 and not v.keywords and v.func.value.id in leaf.env and leaf.env[v.func.value.id][0] == 'list':
+                cur = leaf.env[v.func.value.id]
+                leaf.env[v.func.value.id] = ('list', cur[1] + (s.T(v.args[0], leaf),))
             return [leaf]
         if isinstance(st, ast.Assign):
             s.note_calls(st.value, leaf)
@@ -608,6 +614,9 @@ class Sym:
             for n in ast.walk(st):
                 if isinstance(n, ast.Name) and isinstance(n.ctx, ast.Store):
                     out.add(n.id)
+                elif isinstance(n, ast.Call) and isinstance(n.func, ast.Attribute) and isinstance(n.func.value, ast.Name) \
+                        and n.func.attr in ('append', 'extend', 'insert', 'pop', 'remove', 'clear', 'update', 'add'):
+                    out.add(n.func.value.id)
         return out
 
     def for_loop(s, st, leaf):
